@@ -40,7 +40,8 @@ def configuration(root, platforms):
     """The dict finder.find wants, produced by the real config.load_database from the written databases."""
     from codebasin import config
 
-    config._compilers = None
+    from . import env
+    env.reset_compilers()
     return {p: config.load_database(os.path.join(root, f"{p}.json"), root) for p in platforms}
 
 
